@@ -70,6 +70,11 @@ def run(ctx: Context) -> None:
     ctx.rule('R17.3', "the re-parse comparison dominates the return and its failure raises", floor=2)
     ctx.rule('R17.4', "to_netcdf_with_fixes works on a shallow copy, suppresses default fill values on the copy before writing, and rewrites the time units after the write and only when a time variable is given; the suppression never overrides an existing _FillValue", floor=7)
     ctx.rule('R17.5', "exception agreement: time_coordinate raises NoSuchCoordinateError and every handler around it names one of its ancestors; the save method forwards dataset, path and options; the time variable is discovered by its decoded units alone", floor=7)
+    ctx.rule('R17.6', "helpers of the save path: the time variable is found among all variables, fill suppression visits every variable, and the default calendar is the proleptic Gregorian one", floor=4)
+    from . import infra as _infra
+    _infra.lookup_namespace(ctx, 'R17.6', ['time_coordinate'])
+    _infra.all_variables_visited(ctx, 'R17.6')
+    _infra.default_calendar(ctx, 'R17.6')
     ctx.assume("cftime 1.6.5 accepts a colon separated time zone designator only as [+-]HH:MM (checked once against the installed version; '+8:00' and '-0:30' are read as offset 0)")
     ctx.assume("NOT decided: identity of values and polygons after the netCDF round trip (xarray / netCDF4 at run time)")
 
